@@ -1929,14 +1929,47 @@ def _slice_concat(M, a, info):
     return out if isinstance(out, (str, SymStr)) else RVec(out)
 
 
+def _key_lt(M, x, y):
+    """x < y for sort keys that may contain symbolic integers (ints, Option<int>, tuples of those): decided by branching"""
+    x = deref_all(x); y = deref_all(y)
+    if type(x) is Adt and type(y) is Adt and x.name.split('::')[-1] == 'Option' and y.name.split('::')[-1] == 'Option':
+        if x.vidx != y.vidx: return x.vidx < y.vidx            # None < Some(_)
+        if x.vidx == 0: return False
+        return _key_lt(M, x.fields[0], y.fields[0])
+    if type(x) is Tup and type(y) is Tup:
+        for u, v in zip(x.fields, y.fields):
+            if _key_lt(M, u, v): return True
+            if _key_lt(M, v, u): return False
+        return False
+    if (is_sym(x) or isinstance(x, int)) and (is_sym(y) or isinstance(y, int)) and not isinstance(x, bool) and not isinstance(y, bool):
+        if not is_sym(x) and not is_sym(y): return x < y
+        w = x.size() if is_sym(x) else y.size()
+        return M.I.branch(z3.ULT(bv(x, w), bv(y, w)))           # keys met so far are unsigned sizes / alignments / addresses
+    return canon(x) < canon(y)
+
+
+def _has_sym(v):
+    v = deref_all(v)
+    if is_sym(v): return True
+    if type(v) in (Adt, Tup): return any(_has_sym(f) for f in v.fields)
+    return False
+
+
 @model('Iterator::min', 'Iterator::min_by_key', 'Iterator::max_by_key')
 def _iter_minmax(M, a, info):
     op = info[3]
     items = list(_iterate(M, a[0]))
     if not items: return NONE()
-    if op == 'min': keyf = lambda x: canon(x)
-    else: keyf = lambda x: canon(M.call_fn(a[1], [Ptr([x], 0)]))
-    keys = [keyf(x) for x in items]
+    rawkeys = [x if op == 'min' else M.call_fn(a[1], [Ptr([x], 0)]) for x in items]
+    if any(_has_sym(k) for k in rawkeys):
+        best = 0
+        for i in range(1, len(items)):
+            if op in ('min', 'min_by_key'):
+                if _key_lt(M, rawkeys[i], rawkeys[best]): best = i
+            else:
+                if not _key_lt(M, rawkeys[i], rawkeys[best]): best = i       # max_by_key returns the last maximum
+        return SOME(items[best])
+    keys = [canon(k) for k in rawkeys]
     if op in ('min', 'min_by_key'):
         best = 0
         for i in range(1, len(items)):
